@@ -126,6 +126,7 @@ func init() {
 							}
 							created, expired := stamps[combo%6], stamps[(combo/6)%6]
 							kase := map[string]interface{}{"header_set": hi, "subset": subset, "size": sz, "status": status, "created": created, "expired": expired, "combo": combo}
+							c.Sample(kase)
 							st.Execs++
 							data, err := cache.VerifEncode(status, resp, created, expired)
 							if err != nil {
@@ -208,6 +209,7 @@ func init() {
 					_, derr, pan, hung = guarded(func() ([]byte, error) { _, e := cache.VerifDecode(mut); return nil, e })
 				})
 				kase := map[string]interface{}{"record": ri, "mutation": what, "bytes": fmt.Sprintf("%x", mut)}
+				c.Sample(kase)
 				switch {
 				case pan != "":
 					c.Violation("mutations", "decode-panic", what+": "+pan, nil, kase, nil)
